@@ -9,8 +9,9 @@ CLAIMS = {
     'C01': ('Theorems over all DAG shapes and arbitrary generator trees: the stack machine simulates a recursive evaluator (Sim.v), '
             'which under the eviction-budget invariant returns the cache-free composition of the user functions (L2.v, Counts.v); '
             'instantiated for the regenerated edge generators. The machine model is tied to vm.py by full-trace agreement on generated DAGs.',
-            'success direction only: when the specification value is defined (no user function raises, switch keys known) the call returns it '
-            'and never gets stuck; exception propagation and cache edges inside the concrete instance rest on the correspondence'),
+            'both directions for graphs whose failure-free composition is defined: under any behaviour of the user functions the call returns it or stops '
+            'with the exception of a user function that raised, never stuck (the run is the failure-free run up to the first raising call); which of '
+            'several raising functions fires first, and library-raised KeyError / ValueError (unknown switch key, foreign id), rest on the trace agreement'),
     'C03': ('Theorem: in a successful call no (hash|value, node) generator completes twice, for any graph, generator trees, caches and '
             'interference; the exact call log (which functions, order, laziness of switches and cache hits) is compared between the '
             'Coq machine and the real engine on every generated case, plus direct oracles on the implementation log.',
@@ -19,7 +20,9 @@ CLAIMS = {
             'Good-preserving interference: every call returns the value of the cache-free recursive semantics; via the store invariant '
             '"every entry key is a hash whose inverse reading is the stored value" (hash soundness over the regenerated hash makers) and '
             'the machine/evaluator/spec refinement. Real pipelines with CacheToRam/CacheToDisk are run against the model on generated histories.',
-            'success direction (no user function raises on the path of a cache node); keys without numeric leaves (else known finding F3); '
+            'a failing call is proved to stop with a user exception and nothing else, but that the store still meets the invariant AFTER a failed call '
+            '("leaves nothing behind") is decided by the correspondence and the regenerated write-after-parent fact, not by a theorem; keys without numeric '
+            'leaves (else known finding F3); '
             'CacheColumns is not in the VM model: decided by oracles against the cache-free pipeline; serializer round trip and real disk trusted'),
     'C05': ('Theorems: the value of every node is the inverse reading of its node hash, for all graphs without Silent arguments and all '
             'interpretations of the user functions (over the regenerated _make_hash bodies); hence equal hashes give equal values across graphs; '
@@ -57,11 +60,12 @@ CLAIMS = {
             'of a chain flattens to the left fold; real chains are rebuilt under random bracketings (nested Chain, LazyChain, >>) and compared field by field, '
             'with the same model as C02.',
             'associativity is proved for outputs / virtual names / persistent names; optional flags and loopback contexts are compared by the correspondence only'),
-    'C10': ('Theorem for every chain of invertible (with a private parameter shared by forward and inverse), inherit-all, inherit-list, forward-only and cache '
-            'layers: threading the contexts through the connections and reversing computes forward fields in order ; f ; inverses in reverse order, each '
-            'with its own layer\'s parameter value; a forward-only layer anywhere rejects. _decorate / _wrap / _loopback of real chains are compared with the model.',
-            'one forward field, one backward field and one private parameter per layer; Inverse._wrap and ChainContext.reverse are tied by whole-body '
-            'translator patterns (a change there is reported without a concrete input unless the single-field harness exhibits it)'),
+    'C10': ('Theorem for every chain of layers (x defined with or without a private parameter, inherited or absent; any @inverse fields, each with any backward '
+            'arguments and possibly the parameter; any inherit set; cache layers) and any requested outputs: threading the contexts through the connections and '
+            'reversing them computes forward fields in order ; f ; backward parts in reverse order, each with its own layer\'s parameter value, and is rejected exactly '
+            'when x or a requested field is unreachable; a forward-only layer anywhere rejects. _decorate / _wrap / _loopback of real chains are compared with the model.',
+            'one forward field and one private parameter per layer, backward fields y and w in the harness; Inverse._wrap and ChainContext.reverse are additionally '
+            'tied by whole-body translator patterns'),
     'C12': ('Theorems on a model of the two-level content-addressed store at the granularity of single file-system mutations: for every interleaving of process '
             'steps, process deaths, loss of any blobs, loss or truncation of any index files and new processes, every answered call returns the value of its '
             'entry and no write meets a conflicting index; a hit names only present blobs; an uninterrupted call always ends with the entry readable, for any acyclic nesting of disk caches. The real '
